@@ -43,13 +43,29 @@ def _table_job(st):
 
     c = st["case"]
     bad = []
-    if c["kind"] == "ks":
+    if c["kind"] in ("ks", "ksseq"):
         vm = rv(c["vm"])
         n = len(vm)
         # FailureKS wants (ny-1, 2): fill both columns with the same values (N = 2 n terms) or pad
         s = _surf(n + 1, sigma=rat(c["sigma"]))
         arr = np.column_stack([vm, vm])
-        ks = run_comp(FailureKS(surface=s, rho=rat(c["rho"])), {"vonmises": arr}, ["failure"])["failure"].item()
+        if c["kind"] == "ksseq":
+            # history: the same instance evaluated (and linearised) at `prev` first
+            pv = rv(c["prev"])
+            _, prob = run_comp(FailureKS(surface=s, rho=rat(c["rho"])), {"vonmises": np.column_stack([pv, pv])}, ["failure"], keep=True)
+            prob.compute_totals(of=["failure"], wrt=["vonmises"])
+            prob.set_val("vonmises", arr)
+            prob.run_model()
+            ks = float(np.ravel(prob.get_val("failure"))[0])
+            Jl = np.array(prob.compute_totals(of=["failure"], wrt=["vonmises"], return_format="array"))
+            _, fresh = run_comp(FailureKS(surface=s, rho=rat(c["rho"])), {"vonmises": arr}, ["failure"], keep=True)
+            Jf = np.array(fresh.compute_totals(of=["failure"], wrt=["vonmises"], return_format="array"))
+            if not np.all(np.isfinite(Jl)) or float(np.max(np.abs(Jl - Jf))) > 1e-12 * max(float(np.max(np.abs(Jf))), 1e-300):
+                bad.append("table:ks_history:partials")
+            if not np.isfinite(ks):
+                bad.append("table:ks_history:nonfinite")
+        else:
+            ks = run_comp(FailureKS(surface=s, rho=rat(c["rho"])), {"vonmises": arr}, ["failure"])["failure"].item()
         args = np.concatenate([rv(st["args"]), rv(st["args"])])
         if np.any(args > 0) or not np.any(args == 0):
             bad.append("table:ks_shift_discipline")
@@ -59,7 +75,7 @@ def _table_job(st):
         fe = run_comp(FailureExact(surface=s), {"vonmises": arr}, ["failure"])["failure"]
         if float(np.max(np.abs(fe[:, 0] - rv(st["f"])))) > 1e-12 * max(1.0, float(np.max(np.abs(rv(st["f"]))))):
             bad.append("table:FailureExact")
-        return {"case": {"kind": "ks", "n": n}, "bad": bad}
+        return {"case": {"kind": c["kind"], "n": n}, "bad": bad}
     d = np.array(c["d"][:3], dtype=float) / c["d"][3]
     L = rat(c["L"])
     nodes = np.array([[0.4, -2.0, 0.3], [0.4, -2.0, 0.3]]) + np.outer([0.0, L], d)
@@ -169,7 +185,19 @@ def _ks_job(k):
         vm = top * (1 - 1e-9 * rng.uniform(0, 1, N))  # nearly equal values
     vm = vm.reshape(nel, ncrit)
     s = _surf(nel + 1, "tube" if ncrit == 2 else "wingbox", sigma=sigma)
-    ks = run_comp(FailureKS(surface=s, rho=rho), {"vonmises": vm}, ["failure"])["failure"].item()
+    if k % 2:
+        # the same instance evaluated first at other stresses (another magnitude, the critical element elsewhere)
+        prev = np.roll(vm.ravel()[::-1], int(rng.integers(0, N))).reshape(nel, ncrit) * float(10.0 ** rng.uniform(-9, 0)) + float(rng.uniform(0, 1e3))
+        _, prob = run_comp(FailureKS(surface=s, rho=rho), {"vonmises": prev}, ["failure"], keep=True)
+        prob.compute_totals(of=["failure"], wrt=["vonmises"])
+        prob.set_val("vonmises", vm)
+        prob.run_model()
+        ks = float(np.ravel(prob.get_val("failure"))[0])
+        fresh = run_comp(FailureKS(surface=s, rho=rho), {"vonmises": vm}, ["failure"])["failure"].item()
+        if not (ks == fresh or abs(ks - fresh) <= 1e-12 * max(1.0, abs(fresh))):
+            bad.append("ks:depends_on_previous_evaluation")
+    else:
+        ks = run_comp(FailureKS(surface=s, rho=rho), {"vonmises": vm}, ["failure"])["failure"].item()
     fe = run_comp(FailureExact(surface=s), {"vonmises": vm}, ["failure"])["failure"]
     fmax = float(np.max(vm / sigma - 1))
     if float(np.max(np.abs(fe - (vm / sigma - 1)))) > 1e-13 * max(1.0, abs(fmax)):
